@@ -148,6 +148,9 @@ fn stub_internal_generate_token(_t: &mut Tokens, address: SocketAddrV4, secret: 
 #[kani::proof]
 #[kani::unwind(22)]
 #[kani::stub(Tokens::internal_generate_token, stub_internal_generate_token)]
+#[kani::stub(std::time::Instant::now, clock::mock_now)]
+#[kani::stub(std::time::Instant::elapsed, clock::mock_elapsed)]
+#[kani::stub(getrandom::fill, fill_symbolic)]
 fn c15_validate_and_generate_use_the_presenters_ip_and_both_secrets() {
     let prev: [u8; 20] = kani::any();
     let curr: [u8; 20] = kani::any();
